@@ -15,7 +15,9 @@ type legacyFixture struct {
 	KVs  []kv
 }
 
-func (f legacyFixture) Dir() string { return filepath.Join(repoRoot(), "sstables", "test_files", f.Rel) }
+func (f legacyFixture) Dir() string {
+	return filepath.Join(repoRoot(), "sstables", "test_files", f.Rel)
+}
 
 func be32(x uint32) []byte {
 	b := make([]byte, 4)
